@@ -1,24 +1,174 @@
 (* C15 — Conflict resolution only trims inside the overlap and leaves no shared label.
-   Model: Core.resolve_pair / retry / resolve_loop / resolve_conflicts (segments.py, segment_with_resolved_conflicts.py).
-   INTERIM version: the one-step theorem; the lift to the whole resolver loop, keeps-outside and disjointness are being
-   proved in proofs/ResolverProofs*.v and will be added here. *)
-From Coq Require Import ZArith QArith List Bool.
+   Model: Core.resolve_pair (checkForConflicts + resolveConflict), Core.chain, Core.retry / Core.resolve_loop (the repaired stack loop
+   of __pairAndResolveConflicts), Core.resolve_conflicts, Core.aligner_align.  Statements only; proofs in proofs/ResolverProofs1..14.v.
+
+   Vocabulary
+   - before dir x y : wherever x and y both carry a reference (query) label, x's is strictly smaller in site and position
+     (query sites move in direction dir = 1 / -1).  seg_ord dir l = every earlier position of l stands `before` every later one.
+   - cwf dir s : seg_ord, score = sum of position scores, and a segment with pairs starts and ends with a pair (factory output).
+   - coherent dir l1 l2 : the labels of l1 and l2 come from one pair of maps (equal position <-> equal site, order of positions = order of sites).
+   - subrun_of c s : same peak, score = sum, positions s = firstn x (skipn m (positions c)).
+   - derived c s   : same peak, score = sum, positions s is a sub-list of positions c of the shape junk ++ contiguous sub-run of c ++ junk
+                     (junk = unaligned positions only).
+   - chain P segs = Ok (sel ++ empties): sel is a sub-sequence of the pre-ordered non-empty inputs with finite join scores; inputs the
+     chain does not select are DROPPED, the empty ones are appended. *)
+From Coq Require Import ZArith QArith List Bool Sorting.Sorted Sorting.Permutation.
 Import ListNotations.
-Require Import Py Pairing Core ConflictProofs.
+Require Import Py Pairing Core ConflictProofs DPProofs
+  ResolverProofs1 ResolverProofs2 ResolverProofs3 ResolverProofs4 ResolverProofs5 ResolverProofs6 ResolverProofs7 ResolverProofs8 ResolverProofs9 ResolverProofs10
+  ResolverProofs11 ResolverProofs12 ResolverProofs14.
 Open Scope Z_scope.
 
-(* one resolution step returns a prefix of the left member and a suffix of the right member, same peaks,
-   scores recomputed as sums, whichever of the five outcomes is taken: nothing is added, moved or re-scored *)
-Theorem C15_subrun_step a b a' b' : wfL a -> wfR b -> resolve_pair a b = Ok (a', b') ->
-  trimmed_left a a' /\ trimmed_right b b'.
-Proof. exact (resolve_pair_subrun a b a' b'). Qed.
+(* ---- C15_subrun ---- *)
+(* for any ordered, correctly scored inputs (no assumption on how segments relate to each other): nothing is added, moved or re-scored;
+   every result is junk ++ (contiguous sub-run of the chain member at the same index) ++ junk *)
+Theorem C15_subrun_any_input dir P segs out :
+  Forall (seg_wf0 dir) segs -> resolve_conflicts P segs = Ok out ->
+  ((length segs < 2)%nat /\ out = segs) \/
+  exists pre sel, Permutation pre (filter (fun s => negb (seg_empty s)) segs) /\ Sub sel pre /\ adjacent (admissible P) sel /\
+    (pre <> [] -> sel <> []) /\ chain P segs = Ok (sel ++ filter seg_empty segs) /\
+    Forall2 derived (sel ++ filter seg_empty segs) out.
+Proof. exact (resolve_conflicts_derived dir P segs out). Qed.
 
-(* __sub__ with the code's __eq__ removes exactly a suffix / prefix of a key-distinct position list *)
-Theorem C15_remove_suffix l n : nodupkey l -> filter (fun p => negb (existsb (pos_eqb p) (skipn n l))) l = firstn n l.
-Proof. exact (remove_suffix l n). Qed.
-Theorem C15_remove_prefix l n : nodupkey l -> filter (fun p => negb (existsb (pos_eqb p) (firstn n l))) l = skipn n l.
-Proof. exact (remove_prefix l n). Qed.
+(* full: for factory-shaped inputs with labels of one pair of maps, every result is a CONTIGUOUS sub-run of the chain member at its index *)
+Theorem C15_subrun dir P segs out :
+  (forall s, In s segs -> cwf dir s) ->
+  (forall s s', In s segs -> In s' segs -> coherent dir (positions s) (positions s')) ->
+  resolve_conflicts P segs = Ok out ->
+  ((length segs < 2)%nat /\ out = segs) \/
+  exists pre sel, Permutation pre (filter (fun s => negb (seg_empty s)) segs) /\ Sub sel pre /\ adjacent (admissible P) sel /\
+    (pre <> [] -> sel <> []) /\ chain P segs = Ok (sel ++ filter seg_empty segs) /\
+    Forall2 subrun_of (sel ++ filter seg_empty segs) out.
+Proof. exact (resolve_conflicts_subrun dir P segs out). Qed.
 
-Print Assumptions C15_subrun_step.
-Print Assumptions C15_remove_suffix.
-Print Assumptions C15_remove_prefix.
+(* the segments Aligner.align builds satisfy those hypotheses (maps with strictly ascending positions, maxDistance >= 0, minScore > 0,
+   unmatched penalty <= 0) *)
+Theorem C15_inputs_wellformed P reference query reverse : engine_ok P reference query ->
+  forall peaks it,
+  (forall s, In s (segs_for_peaks P it reference query peaks reverse) -> cwf (strand reverse) s) /\
+  (forall s s', In s (segs_for_peaks P it reference query peaks reverse) -> In s' (segs_for_peaks P it reference query peaks reverse) ->
+     coherent (strand reverse) (positions s) (positions s')).
+Proof. exact (fun H peaks it => match H with conj Hd (conj Hms (conj Hsu (conj HR HQ))) =>
+  conj (fun s Hs => proj1 (segs_for_peaks_wf P reference query reverse Hd Hms Hsu HR HQ peaks it s Hs))
+       (segs_for_peaks_coherent P reference query reverse Hd Hms Hsu HR HQ peaks it) end). Qed.
+
+Theorem C15_subrun_aligner P it reference query peaks reverse out : engine_ok P reference query ->
+  aligner_align P it reference query peaks reverse = Ok out ->
+  let segs := segs_for_peaks P it reference query peaks reverse in
+  ((length segs < 2)%nat /\ out = segs) \/
+  exists pre sel, Permutation pre (filter (fun s => negb (seg_empty s)) segs) /\ Sub sel pre /\ adjacent (admissible P) sel /\
+    (pre <> [] -> sel <> []) /\ chain P segs = Ok (sel ++ filter seg_empty segs) /\
+    Forall2 subrun_of (sel ++ filter seg_empty segs) out.
+Proof. exact (aligner_align_subrun P it reference query peaks reverse out). Qed.
+
+(* ---- C15_keeps_outside ---- *)
+(* one resolveConflict call: pairs of the left member before the right member's first pair on both sequences, and pairs of the right
+   member after the left member's last pair on both sequences, are kept *)
+Theorem C15_keeps_outside_step dir a b a' b' :
+  seg_ord dir (positions a) -> seg_ord dir (positions b) ->
+  sscore a = sum_scores (positions a) -> sscore b = sum_scores (positions b) ->
+  resolve_pair a b = Ok (a', b') ->
+  (forall cs p, start_position b = Ok cs -> In p (positions a) -> is_pair p = true -> less_both p cs = true -> In p (positions a')) /\
+  (forall ce p, end_position a = Ok ce -> In p (positions b) -> is_pair p = true -> after_both p ce = true -> In p (positions b')).
+Proof. exact (resolve_pair_keeps_outside dir a b a' b'). Qed.
+
+(* the whole loop: a pair of chain member i that is before the first pair of every later member and after the last pair of every earlier one
+   is still in member i of the result *)
+Theorem C15_keeps_outside dir ch out :
+  Forall (seg_wf0 dir) ch -> resolve_loop (length ch) 0 ch [] = Ok out ->
+  forall i s0 s p, nth_error ch i = Some s0 -> nth_error out i = Some s ->
+    In p (positions s0) -> is_pair p = true -> outside ch i p -> In p (positions s).
+Proof. exact (resolve_loop_keeps_outside dir ch out). Qed.
+
+(* ---- the verified checker ---- *)
+Theorem C15_checker_spec segs : segments_disjointb segs = true <-> segments_disjoint 1 segs \/ segments_disjoint (-1) segs.
+Proof. exact (segments_disjointb_spec segs). Qed.
+Theorem C15_checker_dir_spec dir segs : disjoint_dirb dir segs = true <-> segments_disjoint dir segs.
+Proof. exact (disjoint_dirb_spec dir segs). Qed.
+Theorem C15_disjoint_meaning dir segs : segments_disjoint dir segs ->
+  forall i j si sj p p', i <> j -> nth_error segs i = Some si -> nth_error segs j = Some sj ->
+    In p (aligned si) -> In p' (aligned sj) -> ~ shares p p' /\ ~ crosses dir p p'.
+Proof. exact (segments_disjoint_no_conflict dir segs). Qed.
+
+(* ---- C15_disjoint ---- *)
+(* full, for Aligner.align: maps with strictly ascending label positions, query labels inside [0, length - 1bp], maxDistance >= 0,
+   minScore > 0, unmatched penalty <= 0.  After chaining and resolving the segments of any list of seed peaks, on either strand, no two
+   segments share a reference or query label or cross each other, and inside every segment the pairs are strictly ordered. *)
+Theorem C15_disjoint P it reference query peaks reverse out : engine_ok P reference query -> qry_in_range query ->
+  aligner_align P it reference query peaks reverse = Ok out -> segments_disjoint (strand reverse) out.
+Proof. exact (aligner_align_disjoint P it reference query peaks reverse out). Qed.
+
+(* how it is proved, 1: the loop.  For ANY factory-shaped inputs with labels of one pair of maps, the result is disjoint provided every
+   resolution of two ADJACENT chain members (the left one possibly already trimmed at its start, the right one untouched) that leaves both
+   with pairs leaves them strictly apart.  Members two or more apart in the chain never overlap (finite join scores: each member starts at or
+   after the middle of its predecessor and ends at or before the middle of its successor), an emptied member is popped and the retry is
+   between members at least two apart, where resolve_pair either changes nothing or only removes the one shared end label. *)
+Theorem C15_disjoint_if_adjacent dir P segs out :
+  (forall s, In s segs -> cwf dir s) ->
+  (forall s s', In s segs -> In s' segs -> coherent dir (positions s) (positions s')) ->
+  resolve_conflicts P segs = Ok out ->
+  (forall sel, adjacent (admissible P) sel -> chain P segs = Ok (sel ++ filter seg_empty segs) -> adjacent_resolutions_separate sel) ->
+  segments_disjoint dir out.
+Proof. exact (resolve_conflicts_disjoint_if_adjacent dir P segs out). Qed.
+
+(* how it is proved, 2: the two-member problem.  For the segments of Aligner.align every adjacent resolution separates: the whole-sub-run
+   outcomes by the slicing tests, the middle outcome by counting labels (both conflicting sub-runs list the same number of consecutive
+   labels of one map, the left one ending at the left member's last label, the right one starting at the right member's first label) and,
+   on the other sequence, because pairings of two seed peaks never cross (cross_monotone / cross_monotone_q in ResolverProofs11). *)
+Theorem C15_adjacent_separate P it reference query peaks reverse : engine_ok P reference query -> qry_in_range query ->
+  let segs := segs_for_peaks P it reference query peaks reverse in
+  forall sel, adjacent (admissible P) sel -> chain P segs = Ok (sel ++ filter seg_empty segs) -> adjacent_resolutions_separate sel.
+Proof. exact (engine_adjacent_sep P it reference query peaks reverse). Qed.
+
+(* pairings of two seed peaks A >= B against the same maps do not cross *)
+Theorem C15_cross_peaks d dir R Q A B c c' : 0 <= d ->
+  StronglySorted (fun a b => site a < site b /\ lpos a < lpos b) R ->
+  StronglySorted (fun a b => 0 < dir * (site b - site a) /\ lpos a < lpos b) Q ->
+  B <= A -> In c (PairingProofs2.P d A R Q) -> In c' (PairingProofs2.P d B R Q) ->
+  (PairingProofs2.rsite c < PairingProofs2.rsite c' -> lpos (cq c) < lpos (cq c')) /\
+  (lpos (cq c') < lpos (cq c) -> PairingProofs2.rsite c' < PairingProofs2.rsite c).
+Proof. exact (fun Hd HR HQ HAB Hc Hc' => conj
+  (cross_monotone d dir R Q HR HQ A B c c' HAB (PairingProofs2.P_in_P1 d A R Q c Hc) (PairingProofs2.P_in_P1 d B R Q c' Hc'))
+  (cross_monotone_q d dir R Q Hd HR HQ B A c' c HAB Hc' Hc)). Qed.
+
+(* one step between a left member that ends with a pair and a right member that starts with a pair: contiguous results, and they are
+   strictly apart unless the step took the middle outcome (both trimmed at an inner merge index) *)
+Theorem C15_step_fresh dir a b a' b' :
+  seg_ord dir (positions a) -> seg_ord dir (positions b) ->
+  sscore a = sum_scores (positions a) -> sscore b = sum_scores (positions b) ->
+  last_is_pair (positions a) -> first_is_pair (positions b) -> has_pairs a = true -> has_pairs b = true ->
+  coherent dir (positions a) (positions b) ->
+  resolve_pair a b = Ok (a', b') ->
+  exists x y, positions a' = firstn x (positions a) /\ positions b' = skipn y (positions b) /\
+    speak a' = speak a /\ speak b' = speak b /\ sscore a' = sum_scores (positions a') /\ sscore b' = sum_scores (positions b') /\
+    (psep (positions a') (positions b') \/ ((x < length (positions a))%nat /\ (0 < y)%nat)).
+Proof. exact (rp_fresh_main dir a b a' b'). Qed.
+
+(* non-vacuity: reverse strand, three peaks; the chain has four members, two are trimmed and one is emptied *)
+Definition exP := mkP 200 2 (-20) 100 60 10 0 0.
+Definition exR := mkMap 1 0 [0; 10; 40; 60; 70; 80] 0.
+Definition exQ := mkMap 7 130 [0; 30; 60; 70; 80; 110; 120] 0.
+Example C15_nonvacuous :
+  match aligner_align exP 1 exR exQ [-10; 40; 50] true, chain exP (segs_for_peaks exP 1 exR exQ [-10; 40; 50] true) with
+  | Ok out, Ok ch => map (fun s => length (positions s)) ch = [1; 4; 1; 1]%nat /\ map (fun s => length (positions s)) out = [1; 2; 0; 1]%nat /\
+                     disjoint_dirb (-1) out = true
+  | _, _ => False
+  end.
+Proof. vm_compute. repeat split; reflexivity. Qed.
+Example C15_nonvacuous_hyp : engine_ok exP exR exQ /\ qry_in_range exQ.
+Proof. split; [repeat split; try (vm_compute; congruence); repeat constructor|]. intros p Hp. cbn in Hp. unfold K. cbn. repeat (destruct Hp as [<-|Hp]; [split; vm_compute; congruence|]). destruct Hp. Qed.
+
+Print Assumptions C15_subrun_any_input.
+Print Assumptions C15_subrun.
+Print Assumptions C15_inputs_wellformed.
+Print Assumptions C15_subrun_aligner.
+Print Assumptions C15_keeps_outside_step.
+Print Assumptions C15_keeps_outside.
+Print Assumptions C15_checker_spec.
+Print Assumptions C15_checker_dir_spec.
+Print Assumptions C15_disjoint_meaning.
+Print Assumptions C15_disjoint.
+Print Assumptions C15_disjoint_if_adjacent.
+Print Assumptions C15_adjacent_separate.
+Print Assumptions C15_cross_peaks.
+Print Assumptions C15_step_fresh.
